@@ -40,6 +40,8 @@ const VANISH_SLACK: Duration = Duration::from_secs(5);
 const LIVE_DEADLINE: Duration = Duration::from_secs(180);
 /// wall-clock budget for one simulated scenario (cooperative: checked from the packet monitor)
 const WALL_BUDGET_TAG: &str = "VQ_WALL_BUDGET";
+const SIM_DONE_TAG: &str = "VQ_SIM_DONE";
+const SIM_OVERRUN_TAG: &str = "VQ_SIM_OVERRUN";
 
 // ---------------------------------------------------------------------------------------
 // scenario description (fully serialisable: a replay file carries the whole scenario)
@@ -1015,8 +1017,24 @@ pub fn run_sim(sc: &Scenario, wall_budget: Duration) -> Outcome {
     let ctl2 = ctl.clone();
     let oracle2 = oracle.clone();
     let result2 = result.clone();
-    rt.run(move || {
+    let run_result = std::panic::catch_unwind(std::panic::AssertUnwindSafe(|| rt.run(move || {
         let sc = sc2;
+        // s2n-quic-dc spawns its stream workers as *primary* bach tasks, so the simulation does
+        // not end with our controller: a worker that never finishes keeps it running. The
+        // controller therefore unwinds out of the runtime (tagged panic, caught below) when it
+        // hits its deadline, and a reaper does the same if workers outlive every application
+        // operation by more than 120 s of virtual time.
+        {
+            let last_deadline = match sc.vanish {
+                VanishKind::None => LIVE_DEADLINE,
+                _ => Duration::from_micros(sc.vanish_at_us) + 2 * (IDLE_TIMEOUT + VANISH_SLACK) + Duration::from_secs(60),
+            };
+            async move {
+                (last_deadline + Duration::from_secs(120)).sleep().await;
+                panic!("{SIM_OVERRUN_TAG}");
+            }
+            .spawn();
+        }
         // drops: the official bach monitor hook (needs bach's `net-monitor` feature)
         {
             let ctl = ctl2.clone();
@@ -1205,19 +1223,38 @@ pub fn run_sim(sc: &Scenario, wall_budget: Duration) -> Outcome {
                     }
                 }
             }
+            let stop = !hanging.is_empty();
             *result.lock().unwrap() = (hanging, vanish_t0, now_us());
+            if stop {
+                // operations are hanging: do not simulate on until the stream workers give up
+                panic!("{SIM_DONE_TAG}");
+            }
         }
         .group("client")
         .primary()
         .spawn();
-    });
+    })));
     drop(rt);
+    let mut overrun = false;
+    if let Err(p) = run_result {
+        let msg = known::panic_text(p);
+        if msg.contains(SIM_DONE_TAG) {
+            // expected: the controller stopped the simulation at its deadline
+        } else if msg.contains(SIM_OVERRUN_TAG) {
+            overrun = true;
+        } else {
+            // library panic or wall budget: let the scenario runner classify it
+            std::panic::resume_unwind(Box::new(msg));
+        }
+    }
 
     let (hanging, vanish_t0, end_us) = result.lock().unwrap().clone();
     let net = ctl.lock().unwrap().stats.clone();
     let o = oracle.lock().unwrap();
     let mut out = judge(sc, &o, hanging, vanish_t0, end_us, net);
-    if end_us == 0 {
+    if overrun {
+        out.harness_problem = Some("stream worker tasks were still running 120 s (virtual) after the last application deadline".into());
+    } else if end_us == 0 {
         out.harness_problem = Some("the controller task never finished (simulation ended early)".into());
     }
     out
